@@ -647,3 +647,209 @@ def gen_perm_decls(rng, tier):
         decls.append(d)
         n += 1
     return decls
+
+
+# ---------------------------------------------------------------- Arbitrary corpus (C09, C14)
+
+ARB_INT_SHAPES = [[], ["L"], ["U"], ["L", "U"], ["U", "L"]]
+
+
+def arb_int_pairs(ty):
+    lo, hi = ity_min(ty), ity_max(ty)
+    signed, bits = INT_TYPES[ty]
+    ps = [((-5, 10) if signed else (3, 10)), (lo, lo + 3), (hi - 3, hi), (6, 8), (0, 15), (1, 16)]
+    if bits >= 16:
+        ps += [(100, 1000), (0, 255), (0, 256), ((-300, 300) if signed else (7, 607))]
+    ps += [(lo, hi), (lo + 1, hi - 1), (0, hi)]
+    if signed:
+        ps += [(-1, 1), (lo, -1)]
+    return ps
+
+
+def gen_arb_ints(rng, tier, start=0):
+    decls = []
+    types = list(INT_TYPES)
+    n = 0
+    for ty in types:
+        pairs = arb_int_pairs(ty)
+        per = 14 if tier == "quick" else 40
+        for j in range(per):
+            shape = ARB_INT_SHAPES[(j + n) % len(ARB_INT_SHAPES)]
+            lo_v, hi_v = pairs[(j * 3 + n) % len(pairs)]
+            lk = LOWER[(j // 2) % 2]
+            uk = UPPER[(j // 3) % 2]
+            # keep the valid set non-empty
+            if "L" in shape and "U" in shape:
+                need = (1 if lk == "greater" else 0) + (1 if uk == "less" else 0)
+                if hi_v - lo_v < need:
+                    lk, uk = "greater_or_equal", "less_or_equal"
+            elif "L" in shape and lk == "greater" and lo_v == ity_max(ty):
+                lk = "greater_or_equal"
+            elif "U" in shape and uk == "less" and hi_v == ity_min(ty):
+                uk = "less_or_equal"
+            if "L" in shape and lk == "greater" and lo_v == ity_max(ty):
+                lk = "greater_or_equal"
+            if "U" in shape and uk == "less" and hi_v == ity_min(ty):
+                uk = "less_or_equal"
+            env = []
+            sty_lo = INT_STYLES[(j + 2) % len(INT_STYLES)]
+            sty_hi = INT_STYLES[(j * 5 + 5) % len(INT_STYLES)]
+            items = []
+            for s in shape:
+                if s == "L":
+                    items.append([tid(lk), EQ, tx(spell_int(ty, lo_v, sty_lo, env, "lo"))])
+                else:
+                    items.append([tid(uk), EQ, tx(spell_int(ty, hi_v, sty_hi, env, "hi"))])
+            blocks = []
+            sanitized = (j % 7 == 6)
+            if sanitized:
+                blocks.append(block("sanitize", [[tid("with"), EQ, tfn(j % 3, "p", "s")]]))
+            if items:
+                blocks.append(block("validate", items))
+            blocks.append(derive_block(["Debug", "Arbitrary"]))
+            d = Decl("ai%d" % (start + len(decls)), ty, attr(blocks), env=env, tags={"arb", "int"})
+            d.bounds = [lo_v, hi_v]
+            d.sanitized = sanitized and bool(items)
+            d.has_san = sanitized
+            d.default_arg = None
+            decls.append(d)
+        n += 1
+    return decls
+
+
+ARB_FLOAT_SHAPES = [["F"], ["L"], ["U"], ["L", "U"], ["U", "L"], ["F", "L"], ["F", "U"], ["F", "L", "U"],
+                    ["L", "F", "U"], ["L", "U", "F"], []]
+ARB_FLOAT_PAIRS = [("0.0", "1.0"), ("-5.5", "1e3"), ("0.0", "10.0"), ("64.0", "65.0"), ("-100", "100"),
+                   ("1e-40", "1e-39"), ("-3.0e38", "3.0e38"), ("16777216.0", "16777218.0"), ("-1.0", "0.0"),
+                   ("0.1", "0.3"), ("-0.0", "0.0"), ("5", "7.25"), ("-65.0", "-64.0"), ("1e30", "2e30")]
+
+
+def gen_arb_floats(rng, tier, start=0):
+    decls = []
+    for ti, ty in enumerate(("f32", "f64")):
+        is64 = FLOAT_TYPES[ty]
+        per = 44 if tier == "quick" else 154
+        for j in range(per):
+            shape = ARB_FLOAT_SHAPES[(j + ti) % len(ARB_FLOAT_SHAPES)]
+            lo_t, hi_t = ARB_FLOAT_PAIRS[(j * 3 + ti) % len(ARB_FLOAT_PAIRS)]
+            lk = LOWER[(j // 2) % 2]
+            uk = UPPER[(j // 3) % 2]
+            if "L" in shape and "U" in shape and fbits(lo_t, is64) & ~(1 << (63 if is64 else 31)) == 0 and fbits(hi_t, is64) & ~(1 << (63 if is64 else 31)) == 0:
+                lk, uk = "greater_or_equal", "less_or_equal"
+            env = []
+            items = []
+            bounds = []
+            sty = FLOAT_STYLES[j % len(FLOAT_STYLES)]
+            for s in shape:
+                if s == "L":
+                    items.append([tid(lk), EQ, tx(spell_float(ty, lo_t, sty, env, "lo"))])
+                    bounds.append(fbits(lo_t, is64))
+                elif s == "U":
+                    items.append([tid(uk), EQ, tx(spell_float(ty, hi_t, FLOAT_STYLES[(j + 3) % len(FLOAT_STYLES)], env, "hi"))])
+                    bounds.append(fbits(hi_t, is64))
+                else:
+                    items.append([tid("finite")])
+            blocks = []
+            if not items and j % 2:
+                blocks.append(block("sanitize", [[tid("with"), EQ, tfn(j % 3, "p", "s")]]))
+            if items:
+                blocks.append(block("validate", items))
+            blocks.append(derive_block(["Debug", "Arbitrary"]))
+            d = Decl("af%d" % (start + len(decls)), ty, attr(blocks), env=env, tags={"arb", "float"})
+            d.bounds = bounds
+            d.shape = list(shape)
+            d.kinds = (lk, uk)
+            d.default_arg = None
+            decls.append(d)
+    return decls
+
+
+ARB_STR_SANS = [[], ["trim"], ["lowercase"], ["uppercase"], ["trim", "lowercase"], ["uppercase", "trim"]]
+ARB_STR_VALS = [["min"], ["max"], ["min", "max"], ["not_empty"], ["not_empty", "min"], ["min", "not_empty"],
+                ["not_empty", "max"], ["max", "min"], ["min0", "not_empty"], []]
+ARB_STR_BOUNDS = [(0, 2), (1, 1), (2, 5), (3, 3), (1, 4)]
+
+
+def gen_arb_strs(rng, tier, start=0):
+    decls = []
+    n = 60 if tier == "quick" else 300
+    for j in range(n):
+        sans = ARB_STR_SANS[j % len(ARB_STR_SANS)]
+        vals = ARB_STR_VALS[(j // len(ARB_STR_SANS) + j) % len(ARB_STR_VALS)]
+        mn, mx = ARB_STR_BOUNDS[(j * 3) % len(ARB_STR_BOUNDS)]
+        env = []
+        vitems = []
+        for v in vals:
+            if v == "min":
+                vitems.append([tid("len_char_min"), EQ, tx(spell_int("usize", mn, USIZE_STYLES[j % len(USIZE_STYLES)], env, "mn"))])
+            elif v == "min0":
+                vitems.append([tid("len_char_min"), EQ, tx(lit("0"))])
+            elif v == "max":
+                vitems.append([tid("len_char_max"), EQ, tx(spell_int("usize", max(mx, 1), USIZE_STYLES[(j * 3 + 1) % len(USIZE_STYLES)], env, "mx"))])
+            else:
+                vitems.append([tid("not_empty")])
+        blocks = []
+        if sans:
+            blocks.append(block("sanitize", [[tid(s)] for s in sans]))
+        if vitems:
+            blocks.append(block("validate", vitems))
+        blocks.append(derive_block(["Debug", "Arbitrary"]))
+        d = Decl("as%d" % (start + len(decls)), "String", attr(blocks), env=env, tags={"arb", "str"})
+        d.sans = list(sans)
+        d.vals = list(vals)
+        d.default_arg = None
+        decls.append(d)
+    return decls
+
+
+def le32(cp):
+    return [cp & 0xff, (cp >> 8) & 0xff, (cp >> 16) & 0xff, (cp >> 24) & 0xff]
+
+
+ARB_CHARS = [0x61, 0x20, 0xDF, 0x130, 0x2003, 0x85, 0x0, 0x3A3, 0xFB01, 0x149, 0x10FFFF, 0xD800, 0x110000 + 0x41, 0xA0]
+
+
+def arb_byte_inputs(d, rng, tier):
+    out = [[]]
+    out += [[b] for b in range(256)]
+    for ln in range(2, 65):
+        out.append([0] * ln)
+        out.append([255] * ln)
+    for ln in (2, 3, 4, 5, 7, 8, 9, 12, 16, 17):
+        out.append([0x80] + [0] * (ln - 1))
+        out.append([0] * (ln - 1) + [0x80])
+        out.append([0x7f] + [0xff] * (ln - 1))
+        out.append([(i * 37 + 11) % 256 for i in range(ln)])
+    nrand2 = 300 if tier == "quick" else 4000
+    for _ in range(nrand2):
+        out.append([rng.below(256), rng.below(256)])
+    fam = d.family()
+    if fam == "float":
+        w = 8 if FLOAT_TYPES[d.inner] else 4
+        specials = float_specials(FLOAT_TYPES[d.inner])
+        for b in specials:
+            out.append([(b >> (8 * i)) & 0xff for i in range(w)])
+            out.append([(b >> (8 * i)) & 0xff for i in range(w)] * 2)
+        for b in (0, 1, (1 << (8 * w)) - 1, (1 << (8 * w)) - 2, 1 << (8 * w - 1), (1 << (8 * w - 1)) - 1, 1 << (8 * w - 9)):
+            out.append([(b >> (8 * i)) & 0xff for i in range(w)])
+        for _ in range(120 if tier == "quick" else 3000):
+            out.append([rng.below(256) for _ in range(w)])
+        for _ in range(40 if tier == "quick" else 400):
+            out.append([rng.below(256) for _ in range(rng.range(1, 3 * w))])
+    elif fam == "str":
+        for t in range(0, 6):
+            for _ in range(14 if tier == "quick" else 120):
+                seq = []
+                for _ in range(rng.range(0, 7)):
+                    seq += le32(rng.choice(ARB_CHARS))
+                out.append([t] + seq)
+        for c in ARB_CHARS:
+            for t in (0, 1, 2, 3):
+                out.append([t] + le32(c) * 4)
+                out.append([t] + le32(0x20) + le32(c) + le32(0x20) + le32(c))
+        for _ in range(40 if tier == "quick" else 600):
+            out.append([rng.below(256) for _ in range(rng.range(1, 40))])
+    else:
+        for _ in range(60 if tier == "quick" else 1500):
+            out.append([rng.below(256) for _ in range(rng.range(3, 18))])
+    return out
